@@ -47,7 +47,7 @@ func init() {
 
 func isResOf(v ssa.Value, s ssa.Value) bool {
 	b, ok := isFieldLoad(stripConv(v), "Session", "Res")
-	return ok && b == s
+	return ok && (b == s || carriesOnly(b, s))
 }
 
 func r16_1(c *Ctx) {
@@ -332,8 +332,17 @@ func r16_3(c *Ctx) {
 			httpErrs = append(httpErrs, call)
 		}
 	})
-	if up == nil || gs == nil || sub == nil {
-		c.bad(name+":shape", P.pos(fn.Pos()), "ServeHTTP does not (Upgrade, getSubscription, provider.Subscribe)")
+	// the subscription is built by getSubscription, or in place around the OnSession call
+	var on *ssa.Call
+	eachInstrDeep(fn, func(in ssa.Instruction) {
+		if call, ok := in.(*ssa.Call); ok && call.Call.StaticCallee() == nil && !call.Call.IsInvoke() {
+			if _, ok := isFieldLoad(call.Call.Value, "Server", "OnSession"); ok {
+				on = call
+			}
+		}
+	})
+	if up == nil || (gs == nil && on == nil) || sub == nil {
+		c.bad(name+":shape", P.pos(fn.Pos()), "ServeHTTP does not (Upgrade, build the subscription with OnSession's verdict, provider.Subscribe)")
 		return
 	}
 	upErr := func(v ssa.Value) bool {
@@ -365,7 +374,11 @@ func r16_3(c *Ctx) {
 		c.check(got && noSub, name+":upgrade-error", P.ipos(up), "an Upgrade error is answered with 500 and the session is not subscribed", "an Upgrade error is not answered with http.Error(w, ..., 500), or the provider is subscribed anyway")
 	}
 	// getSubscription(sess) and rejection: return without any call receiving w / sess.Res
-	c.check(len(gs.Call.Args) == 2 && upSess(gs.Call.Args[1]) && guardedByNil(fn, gs.Block(), upErr, true), name+":get-subscription", P.ipos(gs), "getSubscription receives the upgraded session", "getSubscription does not receive the session returned by Upgrade")
+	if gs != nil {
+		c.check(len(gs.Call.Args) == 2 && upSess(gs.Call.Args[1]) && guardedByNil(fn, gs.Block(), upErr, true), name+":get-subscription", P.ipos(gs), "getSubscription receives the upgraded session", "getSubscription does not receive the session returned by Upgrade")
+	} else {
+		c.check(guardedByNil(fn, on.Block(), upErr, true), name+":get-subscription", P.ipos(on), "the subscription is built (OnSession consulted) only for an upgraded session", "OnSession is consulted although Upgrade failed")
+	}
 	{
 		wrote := false
 		for _, ifi := range ifsIn(fn) {
@@ -387,7 +400,11 @@ func r16_3(c *Ctx) {
 				return cont
 			})
 		}
-		c.check(!wrote && !guardedReach(fn, gsOK, false, sub), name+":rejected", P.ipos(gs), "a rejected session returns without writing anything and without subscribing", "when OnSession rejects the request ServeHTTP still writes to the response or subscribes")
+		var at ssa.Instruction = on
+		if gs != nil {
+			at = gs
+		}
+		c.check(!wrote && !guardedReach(fn, gsOK, false, sub), name+":rejected", P.ipos(at), "a rejected session returns without writing anything and without subscribing", "when OnSession rejects the request ServeHTTP still writes to the response or subscribes")
 	}
 	// Subscribe(r.Context(), sub)
 	{
@@ -398,13 +415,20 @@ func r16_3(c *Ctx) {
 				ctxOK = true
 			}
 			for _, s := range sources(args[1]) {
-				if e, ok := s.(*ssa.Extract); ok && e.Index == 0 && e.Tuple == ssa.Value(gs) {
+				if e, ok := s.(*ssa.Extract); ok && e.Index == 0 && gs != nil && e.Tuple == ssa.Value(gs) {
 					subOK = true
+				}
+				// built in place: a local Subscription whose Client is the upgraded session (R16.4 checks its fields)
+				if u, ok := s.(*ssa.UnOp); ok && u.Op == token.MUL && gs == nil {
+					if al, ok := cellRoot(u.X).(*ssa.Alloc); ok && typeIs(al.Type(), "sse", "Subscription") {
+						subOK = true
+					}
 				}
 			}
 		}
 		_, provOK := isFieldLoad(sub.Common().Value, "Server", "provider")
-		c.check(ctxOK && subOK && provOK && guardedByBool(fn, sub.Block(), gsOK, true), name+":subscribe-args", P.ipos(sub), "provider.Subscribe(r.Context(), the subscription) for an accepted session", "Subscribe is not called with the request's context and the subscription built for this session (or for a rejected session)")
+		accepted := guardedByBool(fn, sub.Block(), gsOK, true) || (gs == nil && !guardedReach(fn, gsOK, false, sub))
+		c.check(ctxOK && subOK && provOK && accepted, name+":subscribe-args", P.ipos(sub), "provider.Subscribe(r.Context(), the subscription) for an accepted session", "Subscribe is not called with the request's context and the subscription built for this session (or for a rejected session)")
 	}
 	// Subscribe error => http.Error(w, err.Error(), 500)
 	{
@@ -454,12 +478,48 @@ func guardedReach(fn *ssa.Function, isV func(ssa.Value) bool, want bool, target 
 
 func r16_4(c *Ctx) {
 	P := c.P
-	fn := P.Fn("(*Server).getSubscription")
-	if fn == nil || len(fn.Params) != 2 {
-		c.anchor("(*Server).getSubscription")
+	// anchored on the OnSession call: the function around it builds the subscription (getSubscription,
+	// or ServeHTTP itself when the helper was merged into it)
+	var fn *ssa.Function
+	for _, f := range P.Funcs {
+		if !inSSEPackage(f) || f.Synthetic != "" {
+			continue
+		}
+		eachInstr(f, func(in ssa.Instruction) {
+			if call, ok := in.(*ssa.Call); ok && call.Call.StaticCallee() == nil && !call.Call.IsInvoke() {
+				if _, ok := isFieldLoad(call.Call.Value, "Server", "OnSession"); ok {
+					fn = f
+				}
+			}
+		})
+	}
+	if fn == nil {
+		c.anchor("the OnSession call")
 		return
 	}
-	sess := fn.Params[1]
+	// the session: the *Session parameter, or the result of Upgrade in this function
+	var sess ssa.Value
+	for _, p := range fn.Params {
+		if typeIs(p.Type(), "sse", "Session") {
+			sess = p
+		}
+	}
+	merged := sess == nil
+	if merged {
+		eachInstr(fn, func(in ssa.Instruction) {
+			if call, ok := isModCall(in, "Upgrade"); ok {
+				for _, r := range *call.Referrers() {
+					if e, ok := r.(*ssa.Extract); ok && e.Index == 0 {
+						sess = e
+					}
+				}
+			}
+		})
+	}
+	if sess == nil {
+		c.anchor("the session served (parameter or Upgrade result)")
+		return
+	}
 	name := fnLabel(fn)
 	var clientOK, idOK, defOK bool
 	var topicsStores []*ssa.Store
@@ -477,10 +537,10 @@ func r16_4(c *Ctx) {
 		}
 		switch n {
 		case "Client":
-			clientOK = stripConv(st.Val) == ssa.Value(sess)
+			clientOK = carriesOnly(stripConv(st.Val), sess)
 		case "LastEventID":
 			b, ok := isFieldLoad(st.Val, "Session", "LastEventID")
-			idOK = ok && b == ssa.Value(sess)
+			idOK = ok && carriesOnly(b, sess)
 		case "Topics":
 			topicsStores = append(topicsStores, st)
 		}
@@ -549,6 +609,9 @@ func r16_4(c *Ctx) {
 	// returns: second result is OnSession's ok (or true when OnSession is nil)
 	retOK := true
 	for _, ret := range returnsOf(fn) {
+		if merged || len(ret.Results) < 2 {
+			continue // the verdict is acted on in place (R16.3 :rejected / :subscribe-args)
+		}
 		for _, s := range sources(ret.Results[1]) {
 			if b, isC := constBool(s); isC {
 				if !b || !guardedByNil(fn, ret.Block(), func(v ssa.Value) bool { _, ok := isFieldLoad(v, "Server", "OnSession"); return ok }, true) {
@@ -568,7 +631,7 @@ func r16_4(c *Ctx) {
 		good := len(a) == 2 && isResOf(a[0], sess)
 		if good {
 			b, ok := isFieldLoad(a[1], "Session", "Req")
-			good = ok && b == ssa.Value(sess)
+			good = ok && carriesOnly(b, sess)
 		}
 		c.check(good, name+":onsession-args", P.ipos(on), "OnSession(sess.Res, sess.Req)", "OnSession is not given the session's writer and request")
 	}
@@ -1075,48 +1138,32 @@ func r20_2(c *Ctx) {
 		}
 		n++
 		rn := name + ":token-return#" + itoa(i)
-		// every path to this return passes the false edge of (advance == len(data) && !atEOF):
-		// i.e. either advance != len(data) (a second line break was found) or atEOF.
+		// every path to this return passes evidence that a second line break was found (position <
+		// len(data), established outside/at the exit of the scan loop) or that the input is at EOF
 		okk := false
-		for _, ifi := range ifsIn(fn) {
-			cnd := decodeIf(ifi)
-			if cnd.Y == nil || cnd.Op != token.EQL {
-				continue
+		{
+			_, notAtEnd := scanPosEdges(fn, data)
+			blocked := map[cfgEdge]bool{}
+			for e := range notAtEnd {
+				blocked[e] = true
 			}
-			if !(isLenOf(cnd.Y, data) || isLenOf(cnd.X, data)) {
-				continue
-			}
-			a := cnd.X
-			if isLenOf(cnd.X, data) {
-				a = cnd.Y
-			}
-			// the equal edge must lead to a test of atEOF whose false edge returns "need more data"
-			eq := cfgEdge{ifi.Block(), cnd.succWhen(true)}
-			var eofIf *ssa.If
 			for _, j := range ifsIn(fn) {
-				if _, ok := boolEdge(j, func(v ssa.Value) bool { return v == ssa.Value(atEOF) }); ok && edgeDominates(eq.From, eq.Idx, j.Block()) {
-					eofIf = j
+				if sE, ok := boolEdge(j, func(v ssa.Value) bool { return v == ssa.Value(atEOF) }); ok {
+					blocked[cfgEdge{j.Block(), sE}] = true
 				}
 			}
-			if eofIf == nil {
-				continue
+			if len(blocked) > 0 && !reachesAvoiding(entryPoint(fn), ret, nil, blocked) {
+				okk = true
 			}
-			s, _ := boolEdge(eofIf, func(v ssa.Value) bool { return v == ssa.Value(atEOF) })
-			// not-at-EOF edge: every return there has a nil token and advance 0
-			needMore := true
-			forward([]startPoint{atEdge(eofIf.Block(), 1-s)}, func(in ssa.Instruction) searchAction {
-				if r, ok := in.(*ssa.Return); ok {
-					k, isK := constInt(r.Results[0])
-					if !isK || k != 0 || !isNilConst(r.Results[1]) || !isNilConst(r.Results[2]) {
-						needMore = false
+			for _, j := range ifsIn(fn) {
+				cnd := decodeIf(j)
+				if cnd.Y != nil && (isLenOf(cnd.Y, data) || isLenOf(cnd.X, data)) {
+					if isLenOf(cnd.X, data) {
+						adv = cnd.Y
+					} else {
+						adv = cnd.X
 					}
 				}
-				return cont
-			})
-			// and the token return is not reachable from the not-at-EOF edge
-			if needMore && !reachesAvoiding(atEdge(eofIf.Block(), 1-s), ret, nil, nil) && instrDominates(eofIf, ret) || (needMore && !reachesAvoiding(atEdge(eofIf.Block(), 1-s), ret, nil, nil) && ifi.Block().Dominates(ret.Block())) {
-				okk = true
-				adv = a
 			}
 		}
 		c.check(okk, rn, P.ipos(ret), "a token is returned only when a second line break was found (advance < len(data)) or at EOF; otherwise more data is requested", "a token can be returned although the buffer ended inside an event and the input is not at EOF: a truncated event is delivered instead of ErrTooLong / more data")
@@ -1217,52 +1264,13 @@ func r20_4(c *Ctx) {
 				empty = true
 			}
 		}
-		// ... or by (scanned position == len(data)) && !atEOF, the position being loop-carried (the scan ran)
+		// ... or by (scanned position == len(data)) && !atEOF: every path to this return passes an edge
+		// that establishes the position reached the end of the buffer, and the return is under !atEOF
 		scanned := false
-		for _, ifi := range ifsIn(fn) {
-			cnd := decodeIf(ifi)
-			if cnd.Y == nil || cnd.Op != token.EQL {
-				continue
-			}
-			var pos ssa.Value
-			switch {
-			case isLenOf(cnd.Y, data):
-				pos = cnd.X
-			case isLenOf(cnd.X, data):
-				pos = cnd.Y
-			default:
-				continue
-			}
-			// pos derives from the scan: it is (or adds to) a loop-carried phi advanced by NewlineIndex results
-			derives := false
-			seen := map[ssa.Value]bool{}
-			var walk func(v ssa.Value)
-			walk = func(v ssa.Value) {
-				if seen[v] {
-					return
-				}
-				seen[v] = true
-				switch x := v.(type) {
-				case *ssa.Phi:
-					for _, e := range x.Edges {
-						walk(e)
-					}
-				case *ssa.BinOp:
-					walk(x.X)
-					walk(x.Y)
-				case *ssa.Extract:
-					if call, ok := x.Tuple.(*ssa.Call); ok {
-						if _, ok := isModCall(call, "parser.NewlineIndex"); ok {
-							derives = true
-						}
-					}
-				}
-			}
-			walk(pos)
-			if !derives || !edgeDominates(ifi.Block(), cnd.succWhen(true), ret.Block()) {
-				continue
-			}
-			if guardedByBool(fn, ret.Block(), func(v ssa.Value) bool { return v == ssa.Value(atEOF) }, false) {
+		{
+			atEnd, _ := scanPosEdges(fn, data)
+			if len(atEnd) > 0 && !reachesAvoiding(entryPoint(fn), ret, nil, atEnd) &&
+				factGuards(fn, ret.Block(), factBool(func(v ssa.Value) bool { return v == ssa.Value(atEOF) }, false)) {
 				scanned = true
 			}
 		}
@@ -1335,4 +1343,95 @@ func init() {
 	add("C05", "R08.5/R08.6/R09.8 are claimed here too: a wrong replay start position at the resume boundary duplicates or loses an event across a reconnect.", "R08.5", "R08.6", "R09.8")
 	add("C02", "R01.8 is claimed here too: go-sse's own decoder must strip exactly the one space the encoder writes after the colon.", "R01.8")
 	add("C15", "R01.8 is claimed here too: the round trip goes through scanSegment/trimFirstSpace.", "R01.8")
+}
+
+// scanPosEdges classifies the branch edges of the split function that compare a scan-derived position
+// (a value built from NewlineIndex results through the loop) with len(data): atEnd edges establish
+// position == len(data) (the position never exceeds the length, so `!(pos < len)` counts), notAtEnd
+// edges establish position < len(data). Only edges that are outside the scan loop or leave it count:
+// inside the loop the position is still moving.
+func scanPosEdges(fn *ssa.Function, data ssa.Value) (atEnd, notAtEnd map[cfgEdge]bool) {
+	atEnd, notAtEnd = map[cfgEdge]bool{}, map[cfgEdge]bool{}
+	derives := func(pos ssa.Value) bool {
+		found := false
+		seen := map[ssa.Value]bool{}
+		var walk func(v ssa.Value)
+		walk = func(v ssa.Value) {
+			if seen[v] || found {
+				return
+			}
+			seen[v] = true
+			switch x := v.(type) {
+			case *ssa.Phi:
+				for _, e := range x.Edges {
+					walk(e)
+				}
+			case *ssa.BinOp:
+				walk(x.X)
+				walk(x.Y)
+			case *ssa.UnOp:
+				if x.Op == token.MUL {
+					for _, sv := range sources(x) {
+						if sv != v {
+							walk(sv)
+						}
+					}
+				}
+			case *ssa.Extract:
+				if call, ok := x.Tuple.(*ssa.Call); ok {
+					if _, ok := isModCall(call, "parser.NewlineIndex"); ok {
+						found = true
+					}
+				}
+			}
+		}
+		walk(pos)
+		return found
+	}
+	for _, ifi := range ifsIn(fn) {
+		cnd := decodeIf(ifi)
+		if cnd.Y == nil {
+			continue
+		}
+		pos, op := cnd.X, cnd.Op
+		switch {
+		case isLenOf(cnd.Y, data):
+		case isLenOf(cnd.X, data):
+			pos, op = cnd.Y, flipOp(op)
+		default:
+			continue
+		}
+		if !derives(pos) {
+			continue
+		}
+		var endE, notE = -1, -1
+		switch op {
+		case token.EQL:
+			endE, notE = cnd.succWhen(true), cnd.succWhen(false)
+		case token.NEQ:
+			endE, notE = cnd.succWhen(false), cnd.succWhen(true)
+		case token.LSS:
+			endE, notE = cnd.succWhen(false), cnd.succWhen(true)
+		case token.GEQ:
+			endE, notE = cnd.succWhen(true), cnd.succWhen(false)
+		default:
+			continue
+		}
+		b := ifi.Block()
+		counts := func(e int) bool {
+			for _, l := range loopsContaining(fn, b) {
+				if l.Blocks[b.Succs[e]] {
+					return false
+				}
+			}
+			return true
+		}
+		if counts(endE) {
+			atEnd[cfgEdge{b, endE}] = true
+		}
+		if counts(notE) {
+			notAtEnd[cfgEdge{b, notE}] = true
+		}
+	}
+	return
 }
